@@ -27,8 +27,13 @@ class Module:
         self.relpath = relpath
         self.repo = repo or REPO
         self.path = os.path.join(self.repo, relpath)
-        with open(self.path) as fh:
-            self.source = fh.read()
+        if relpath == 'fullSimulation.py#counters':
+            # mechanical slice of the driver (rule and dropped lines: vf/driver_slice.py)
+            from .driver_slice import sliced_source
+            self.source, self.dropped_lines = sliced_source(self.repo)
+        else:
+            with open(self.path) as fh:
+                self.source = fh.read()
         self.tree = ast.parse(self.source)
         self.lines = self.source.splitlines()
         self.functions = {}
